@@ -196,6 +196,8 @@ def docAfter (r : Root) (d : Doc) (ns : Forest) : Doc :=
   unfold attachToRoot; cases hr : st.root <;> simp [hr]
 @[simp] theorem attachToRoot_skip (st : St) (ns : Forest) : (attachToRoot st ns).skip = st.skip := by
   unfold attachToRoot; cases hr : st.root <;> simp [hr]
+@[simp] theorem attachToRoot_fonts (st : St) (ns : Forest) : (attachToRoot st ns).fonts = st.fonts := by
+  unfold attachToRoot; cases hr : st.root <;> simp [hr]
 
 def appendKids (st : St) (ns : Forest) : St :=
   match st.spine with
@@ -394,7 +396,7 @@ theorem elem_closed (st : St) (q : QName) (a : List (QName × Str)) (kids : Fore
   simp only [result, hq]
   rw [flushP_eq st]
   have hm := mergeTF_eq [] kids
-  obtain ⟨doc, names, fix, sp, parsing, data, root, spine, depth, skip, currDet⟩ := st
+  obtain ⟨doc, names, fix, sp, parsing, data, root, spine, depth, skip, fonts, currDet⟩ := st
   cases spine with
   | cons f r =>
     simp [openE, appendKids, closeE, afterElem, parentQ, Frame.add, Frame.close, hm, appF_assoc, appF_flushT, regN,
@@ -410,21 +412,21 @@ theorem result_nil (st : St) : result st .nil = st := by
 
 theorem result_text (st : St) (s : Str) (t : Forest) :
     result { st with data := st.data ++ s } t = result st (.cons (.text s) t) := by
-  obtain ⟨doc, names, fix, sp, parsing, data, root, spine, depth, skip, currDet⟩ := st
+  obtain ⟨doc, names, fix, sp, parsing, data, root, spine, depth, skip, fonts, currDet⟩ := st
   cases spine with
   | cons f r => simp [result, mergeK, regAllF, regN, hasElemF, appendKids, parentQ]
   | nil => cases root <;> simp [result, mergeK, regAllF, regN, hasElemF, appendKids, parentQ, attachToRoot]
 
 theorem result_cdata (st : St) (s : Str) (t : Forest) :
     result { st with data := st.data ++ s } t = result st (.cons (.cdata s) t) := by
-  obtain ⟨doc, names, fix, sp, parsing, data, root, spine, depth, skip, currDet⟩ := st
+  obtain ⟨doc, names, fix, sp, parsing, data, root, spine, depth, skip, fonts, currDet⟩ := st
   cases spine with
   | cons f r => simp [result, mergeK, regAllF, regN, hasElemF, appendKids, parentQ]
   | nil => cases root <;> simp [result, mergeK, regAllF, regN, hasElemF, appendKids, parentQ, attachToRoot]
 
 theorem result_elem (st : St) (q : QName) (a : List (QName × Str)) (kids t : Forest) :
     result (afterElem st q a kids) t = result st (.cons (.elem q a kids) t) := by
-  obtain ⟨doc, names, fix, sp, parsing, data, root, spine, depth, skip, currDet⟩ := st
+  obtain ⟨doc, names, fix, sp, parsing, data, root, spine, depth, skip, fonts, currDet⟩ := st
   cases spine with
   | cons f r =>
     simp [result, afterElem, mergeK, regAllF, hasElemF, appendKids, parentQ, Frame.add, appF_assoc, appF_flushT,
@@ -441,7 +443,7 @@ theorem appendKids_fields (st : St) (ns : Forest) :
     (appendKids st ns).data = st.data ∧ (appendKids st ns).currDet = st.currDet ∧
     (appendKids st ns).stylesPart = st.stylesPart ∧ (appendKids st ns).root = st.root ∧
     ((appendKids st ns).spine = [] ↔ st.spine = []) ∧ (appendKids st ns).depth = st.depth ∧
-    (appendKids st ns).skip = st.skip := by
+    (appendKids st ns).skip = st.skip ∧ (appendKids st ns).fonts = st.fonts := by
   unfold appendKids; cases hs : st.spine <;> simp [hs]
 
 theorem flushP_fields (st : St) :
@@ -451,7 +453,7 @@ theorem flushP_fields (st : St) :
   rw [flushP_eq]
   have := appendKids_fields st (flushT st.data .nil)
   simp [this.1, this.2.1, this.2.2.1, this.2.2.2.2.2.2.1, this.2.2.2.2.2.2.2.1, this.2.2.2.2.2.2.2.2.1,
-    this.2.2.2.2.2.2.2.2.2]
+    this.2.2.2.2.2.2.2.2.2.1]
 
 theorem flushP_parentQ (st : St) : parentQ (flushP st) = parentQ st := by
   rw [flushP_eq]
@@ -488,7 +490,7 @@ theorem run_skipping : (f : Forest) → (st : St) → st.parsing = true → st.s
     have hstart : stepStart st q a = some st' := by
       subst hst'; unfold stepStart; simp [hp, hk]
     have hstop : stepStop st' q = some st := by
-      subst hst'; unfold stepStop; simp [hp]; cases st; simp
+      subst hst'; unfold stepStop; simp [hp]; cases st; simp_all
     have hp' : st'.parsing = true := by subst hst'; exact hp
     have hk' : st'.skip ≠ 0 := by subst hst'; simp
     simp only [evF, evN, List.cons_append, List.append_assoc, run_cons, step, hstart, Option.bind_some]
@@ -496,7 +498,7 @@ theorem run_skipping : (f : Forest) → (st : St) → st.parsing = true → st.s
     simp only [Option.bind_some, List.cons_append, List.nil_append, run_cons, step, hstop]
     exact run_skipping t st hp hk
 
-/-- **a font declaration whose name is declared already is skipped with its subtree** (repair @@HASH-B@@): the state
+/-- **a font declaration whose name is declared already is skipped with its subtree** (repair b40b9f8): the state
     after it is the state before it -/
 theorem run_skip (st : St) (q : QName) (a : List (QName × Str)) (kids : Forest) (hp : st.parsing = true)
     (hsk : st.skip = 0) (hfd : fontDeclared st q a = true) : run st (evN (.elem q a kids)) = some st := by
@@ -523,7 +525,7 @@ theorem fontDeclared_inner (st : St) (q : QName) (a : List (QName × Str)) (h : 
 mutual
 /-- **one element** that is not a child of the root element and not a repeated font declaration: LoadParser attaches
     it, with its attributes and the merged content, to the parent — whatever its name is (a nested office:body, office:styles
-    … is ordinary content since repair @@HASH-A@@) -/
+    … is ordinary content since repair e0e65e8) -/
 theorem run_elem : (q : QName) → (a : List (QName × Str)) → (kids : Forest) → (st : St) → st.parsing = true →
     st.skip = 0 → 2 ≤ st.depth → ParentOK st → st.fix = [] → fontDeclared st q a = false →
     fresh st.names (regN (parentQ st) (.elem q a kids)) = true →
@@ -550,7 +552,7 @@ theorem run_elem : (q : QName) → (a : List (QName × Str)) → (kids : Forest)
     simp only [Option.bind_some, run_cons, run_nil]
     have hres := appendKids_fields st1 (mergeK st1.data kids).1
     have h3p : (result st1 kids).parsing = true := by simp [result, hres.1, h1p]
-    have h3k : (result st1 kids).skip = 0 := by simp [result, hres.2.2.2.2.2.2.2.2.2, h1k]
+    have h3k : (result st1 kids).skip = 0 := by simp [result, hres.2.2.2.2.2.2.2.2.2.1, h1k]
     have h3d : 3 ≤ (result st1 kids).depth := by simp [result, hres.2.2.2.2.2.2.2.2.1]; exact h1d
     have h3s : (result st1 kids).spine ≠ [] := by
       simp only [result]; intro h; have := hres.2.2.2.2.2.2.2.1.mp h; simp [st1, openE] at this
@@ -586,7 +588,7 @@ theorem run_forest : (f : Forest) → (st : St) → st.parsing = true → st.ski
     have af := appendKids_fields st (flushT st.data (.cons (.elem q a (mergeTF [] kids)) .nil))
     refine run_forest t _ ?_ ?_ ?_ (afterElem_parentOK st q a kids hok) ?_ ?_ ?_
     · simp [afterElem, af.1, hp]
-    · simp [afterElem, af.2.2.2.2.2.2.2.2.2, hsk]
+    · simp [afterElem, af.2.2.2.2.2.2.2.2.2.1, hsk]
     · simp [afterElem, af.2.2.2.2.2.2.2.2.1]; exact hd
     · simp [afterElem, af.2.1, hf]
     · rcases hnt with h | h
@@ -594,5 +596,1072 @@ theorem run_forest : (f : Forest) → (st : St) → st.parsing = true → st.ski
       · right; simp [afterElem, af.2.2.2.2.2.2.1]; exact h
     · rw [afterElem_parentQ]; simpa [afterElem] using hfr'.2
 end
+
+/-! ### office:font-face-decls: fonts a part read earlier has declared are not declared again -/
+
+/-- what is kept of the content of an office:font-face-decls element when `decl` are the style:name values declared
+    by the parts read before: a style:font-face whose name is among them is dropped with its subtree, every other node
+    is kept — repeats inside the part included -/
+def fontDrop (decl : List (Option Str)) : Forest → Forest
+  | .nil => .nil
+  | .cons (.elem q a k) t =>
+    if q = qFontFaceEl ∧ decl.contains (lookupA aStyleName a) = true then fontDrop decl t
+    else .cons (.elem q a k) (fontDrop decl t)
+  | .cons (.text s) t => .cons (.text s) (fontDrop decl t)
+  | .cons (.cdata s) t => .cons (.cdata s) (fontDrop decl t)
+
+theorem fontDrop_nil_decl : (f : Forest) → fontDrop [] f = f
+  | .nil => rfl
+  | .cons (.text _) t => by simp [fontDrop, fontDrop_nil_decl t]
+  | .cons (.cdata _) t => by simp [fontDrop, fontDrop_nil_decl t]
+  | .cons (.elem _ _ _) t => by simp [fontDrop, fontDrop_nil_decl t]
+
+theorem declaredNames_appF : (x y : Forest) → declaredNames (appF x y) = declaredNames x ++ declaredNames y
+  | .nil, _ => rfl
+  | .cons (.text _) t, y => by simpa [declaredNames] using declaredNames_appF t y
+  | .cons (.cdata _) t, y => by simpa [declaredNames] using declaredNames_appF t y
+  | .cons (.elem _ _ _) t, y => by simp [declaredNames, declaredNames_appF t y]
+
+theorem declaredNames_flushT (acc : Str) (f : Forest) : declaredNames (flushT acc f) = declaredNames f := by
+  unfold flushT; split <;> simp [declaredNames]
+
+/-- directly under office:font-face-decls: the events of `f` have the effect of the events of what `fontDrop` keeps -/
+theorem run_fontTop : (f : Forest) → (st : St) → st.parsing = true → st.skip = 0 → 2 ≤ st.depth → st.spine = [] →
+    st.root = .sec .fontFace → st.fix = [] →
+    fresh st.names (regAllF (parentQ st) (fontDrop st.fonts f)) = true →
+    run st (evF f) = some (result st (fontDrop st.fonts f))
+  | .nil, st, _, _, _, _, _, _, _ => by simp [evF, fontDrop, result_nil]
+  | .cons (.text s) t, st, hp, hsk, hd, hs, hr, hf, hfr => by
+    simp only [evF, evN, List.cons_append, List.nil_append, run_cons, step, Option.bind_some]
+    have hst : stepChars st s = { st with data := st.data ++ s } := by simp [stepChars, hp, hsk]
+    rw [hst]
+    simp only [fontDrop]
+    rw [← result_text]
+    exact run_fontTop t _ hp hsk hd hs hr hf (by simpa [fontDrop, regAllF, regN, parentQ] using hfr)
+  | .cons (.cdata s) t, st, hp, hsk, hd, hs, hr, hf, hfr => by
+    simp only [evF, evN, List.cons_append, List.nil_append, run_cons, step, Option.bind_some]
+    have hst : stepChars st s = { st with data := st.data ++ s } := by simp [stepChars, hp, hsk]
+    rw [hst]
+    simp only [fontDrop]
+    rw [← result_cdata]
+    exact run_fontTop t _ hp hsk hd hs hr hf (by simpa [fontDrop, regAllF, regN, parentQ] using hfr)
+  | .cons (.elem q a kids) t, st, hp, hsk, hd, hs, hr, hf, hfr => by
+    simp only [evF]
+    rw [run_append]
+    by_cases hc : q = qFontFaceEl ∧ st.fonts.contains (lookupA aStyleName a) = true
+    · have hfd : fontDeclared st q a = true := by
+        simp [fontDeclared, hc.1, hs, hr]; simpa using hc.2
+      rw [run_skip st q a kids hp hsk hfd]
+      simp only [Option.bind_some, fontDrop, hc, and_self, if_true] at hfr ⊢
+      exact run_fontTop t st hp hsk hd hs hr hf hfr
+    · have hnf : fontDeclared st q a = false := by
+        unfold fontDeclared
+        by_cases h1 : q = qFontFaceEl
+        · have h2 : st.fonts.contains (lookupA aStyleName a) = false := by
+            cases h : st.fonts.contains (lookupA aStyleName a) with
+            | false => rfl
+            | true => exact absurd ⟨h1, h⟩ hc
+          have h2' : lookupA aStyleName a ∉ st.fonts := by simpa using h2
+          simp [h2']
+        · simp [h1]
+      have hok : ParentOK st := Or.inr (Or.inr (Or.inr ⟨_, hr⟩))
+      simp only [fontDrop, hc, if_false] at hfr ⊢
+      have hfr' : fresh st.names (regN (parentQ st) (.elem q a kids)) = true ∧
+          fresh (st.names ++ regN (parentQ st) (.elem q a kids)) (regAllF (parentQ st) (fontDrop st.fonts t)) = true := by
+        simpa [regAllF, fresh_append] using hfr
+      rw [run_elem q a kids st hp hsk hd hok hf hnf hfr'.1]
+      simp only [Option.bind_some]
+      rw [← result_elem]
+      have af := appendKids_fields st (flushT st.data (.cons (.elem q a (mergeTF [] kids)) .nil))
+      have hfo : (afterElem st q a kids).fonts = st.fonts := by simp [afterElem, af.2.2.2.2.2.2.2.2.2.2]
+      rw [← hfo]
+      refine run_fontTop t _ ?_ ?_ ?_ ?_ ?_ ?_ ?_
+      · simp [afterElem, af.1, hp]
+      · simp [afterElem, af.2.2.2.2.2.2.2.2.2.1, hsk]
+      · simp [afterElem, af.2.2.2.2.2.2.2.2.1]; exact hd
+      · simp only [afterElem]; exact af.2.2.2.2.2.2.2.1.mpr hs
+      · simp [afterElem, af.2.2.2.2.2.2.1, hr]
+      · simp [afterElem, af.2.1, hf]
+      · rw [afterElem_parentQ, hfo]; simpa [afterElem] using hfr'.2
+
+/-! ### sections: routing, and what is ignored -/
+
+/-- **C04 (routing)**: the document attribute a start tag is routed to — when the element is a child of the root
+    element.  Since repair b40b9f8 office:font-face-decls is taken from every part (a font name is declared once),
+    like the other seven section elements. -/
+theorem routing_table :
+    secOfTrigger qFontFace = some .fontFace ∧ secOfTrigger qAutoStyles = some .autoStyles ∧
+    secOfTrigger qBody = some .body ∧ secOfTrigger qMaster = some .master ∧ secOfTrigger qMeta = some .metaS ∧
+    secOfTrigger qScripts = some .scripts ∧ secOfTrigger qSettings = some .settings ∧
+    secOfTrigger qStyles = some .styles := by decide
+
+/-- while the parser is switched off, everything below the children of the root element is skipped — whatever it is
+    called (only a child of the root element can be a section) -/
+theorem run_ignored : (f : Forest) → (st : St) → st.parsing = false → 2 ≤ st.depth → run st (evF f) = some st
+  | .nil, st, _, _ => rfl
+  | .cons (.text s) t, st, hp, hd => by
+    simp only [evF, evN, List.cons_append, List.nil_append, run_cons, step, Option.bind_some]
+    have : stepChars st s = st := by simp [stepChars, hp]
+    rw [this]; exact run_ignored t st hp hd
+  | .cons (.cdata s) t, st, hp, hd => by
+    simp only [evF, evN, List.cons_append, List.nil_append, run_cons, step, Option.bind_some]
+    have : stepChars st s = st := by simp [stepChars, hp]
+    rw [this]; exact run_ignored t st hp hd
+  | .cons (.elem q a kids) t, st, hp, hd => by
+    obtain ⟨st', hst'⟩ : ∃ s : St, s = { st with depth := st.depth + 1 } := ⟨_, rfl⟩
+    have hd2 : decide (st.depth + 1 = 2) = false := by simp; omega
+    have hstart : stepStart st q a = some st' := by subst hst'; unfold stepStart; simp [hd2, hp]
+    have hstop : stepStop st' q = some st := by subst hst'; unfold stepStop; simp [hp]; cases st; simp_all
+    have hp' : st'.parsing = false := by subst hst'; exact hp
+    have hd' : 2 ≤ st'.depth := by subst hst'; simp; omega
+    simp only [evF, evN, List.cons_append, List.append_assoc, run_cons, step, hstart, Option.bind_some]
+    rw [run_append, run_ignored kids st' hp' hd']
+    simp only [Option.bind_some, List.cons_append, List.nil_append, run_cons, step, hstop]
+    exact run_ignored t st hp hd
+
+/-- the children a section receives from a section element with content `f`: the merged content — unless `f` has no
+    element child at all, in which case its character data is lost with the element LoadParser built and dropped -/
+def secContent (f : Forest) : Forest := if hasElemF f then mergeTF [] f else .nil
+
+/-- between the sections: parser off, nothing pending, at the root element -/
+def Idle (st : St) : Prop :=
+  st.parsing = false ∧ st.data = [] ∧ st.spine = [] ∧ st.currDet = false ∧ st.skip = 0 ∧ st.depth = 1
+
+/-- the part of a section's content that is loaded: everything, except — under office:font-face-decls — font
+    declarations whose name was declared before the section started (by a part read earlier) -/
+def keepS (d : Doc) (s : Sec) (kids : Forest) : Forest :=
+  match s with
+  | .fontFace => fontDrop (declaredNames d.fontFace) kids
+  | _ => kids
+
+/-- the state after a whole section element -/
+def afterSection (st : St) (s : Sec) (a : List (QName × Str)) (kids : Forest) : St :=
+  { st with doc := (st.doc.putAttrs s a).app s (secContent (keepS st.doc s kids))
+            names := st.names ++ regAllF (some (qOfSec s)) (keepS st.doc s kids)
+            root := if hasElemF (keepS st.doc s kids) then .top else .none
+            fonts := if s = .fontFace then declaredNames st.doc.fontFace else st.fonts }
+
+theorem settle_nil (st : St) (h : st.spine = []) : settle st = st := by simp [settle, h, collapse]
+
+/-- **C04 (one section)**: a section element — a child of the root element — met while the parser is idle puts
+    `secContent` of its content (under office:font-face-decls: of what `fontKeep` keeps) into the section it is routed
+    to, puts its attributes `a` on the section object (`Doc.putAttrs`: later values overwrite), registers the style
+    names, and leaves the parser idle again.  No hypothesis on the names of the elements inside. -/
+theorem run_section (st : St) (q : QName) (a : List (QName × Str)) (kids : Forest) (s : Sec)
+    (hi : Idle st) (hf : st.fix = []) (hsec : secOfTrigger q = some s)
+    (hfr : fresh st.names (regAllF (some (qOfSec s)) (keepS st.doc s kids)) = true) :
+    run st (evN (.elem q a kids)) = some (afterSection st s a kids) := by
+  have htr : isTrigger q = true := by simp [isTrigger, hsec]
+  obtain ⟨hp, hd, hsp, hcd, hsk, hdp⟩ := hi
+  have hqf : q ≠ qFontFaceEl := by
+    intro e
+    have hn : secOfTrigger qFontFaceEl = none := by decide
+    rw [e, hn] at hsec; cases hsec
+  have hnf : fontDeclared st q a = false := by simp [fontDeclared, hqf]
+  -- the start tag
+  have hqs : (q = qFontFace) ↔ (s = .fontFace) := by
+    constructor
+    · intro e
+      have hn : secOfTrigger qFontFace = some .fontFace := by decide
+      rw [e, hn] at hsec; exact (Option.some.inj hsec).symm
+    · intro e
+      rw [e] at hsec
+      unfold secOfTrigger at hsec
+      split at hsec
+      · cases hsec
+      split at hsec
+      · cases hsec
+      split at hsec
+      · assumption
+      split at hsec
+      · cases hsec
+      split at hsec
+      · cases hsec
+      split at hsec
+      · cases hsec
+      split at hsec
+      · cases hsec
+      split at hsec
+      · cases hsec
+      · cases hsec
+  obtain ⟨st1, hst1⟩ : ∃ x : St, x = { st with doc := st.doc.putAttrs s a, depth := 2, parsing := true, root := Root.sec s, spine := [], currDet := true, fonts := if s = .fontFace then declaredNames st.doc.fontFace else st.fonts } :=
+    ⟨_, rfl⟩
+  have hstart : stepStart st q a = some st1 := by
+    subst hst1
+    unfold stepStart
+    simp only [hdp, htr, hsk, hnf, hd, hsec]
+    by_cases hs : s = .fontFace
+    · simp [settle, collapse, hsp, hd, hs, hqs.mpr hs]
+    · have hq : q ≠ qFontFace := fun e => hs (hqs.mp e)
+      simp [settle, collapse, hsp, hd, hs, hq]
+  have h1q : parentQ st1 = some (qOfSec s) := by subst hst1; simp [parentQ]
+  have h1ff : st1.doc.fontFace = st.doc.fontFace := by subst hst1; rfl
+  have h1n : st1.names = st.names := by subst hst1; rfl
+  have h1p : st1.parsing = true := by subst hst1; rfl
+  have h1k : st1.skip = 0 := by subst hst1; exact hsk
+  have h1d : (2 : Int) ≤ st1.depth := by subst hst1; simp
+  have h1f : st1.fix = [] := by subst hst1; exact hf
+  have h1s : st1.spine = [] := by subst hst1; rfl
+  have h1r : st1.root = .sec s := by subst hst1; rfl
+  have ihk : run st1 (evF kids) = some (result st1 (keepS st.doc s kids)) := by
+    by_cases hs : s = .fontFace
+    · subst hs
+      have h1fo : st1.fonts = declaredNames st.doc.fontFace := by subst hst1; simp
+      have := run_fontTop kids st1 h1p h1k h1d h1s h1r h1f (by rw [h1q, h1fo, h1n]; simpa [keepS] using hfr)
+      simpa [keepS, h1fo] using this
+    · have hk : keepS st.doc s kids = kids := by cases s <;> first | rfl | exact absurd rfl hs
+      rw [hk] at hfr ⊢
+      exact run_forest kids st1 h1p h1k h1d (Or.inr (Or.inr (Or.inr ⟨s, h1r⟩))) h1f
+        (Or.inr (by rw [h1r]; intro e; exact hs (Root.sec.inj e))) (by rw [h1q, h1n]; exact hfr)
+  simp only [evN, run_cons, step, hstart, Option.bind_some]
+  rw [run_append, ihk]
+  simp only [Option.bind_some, run_cons, run_nil, step]
+  -- the end tag
+  simp only [afterSection]
+  generalize keepS st.doc s kids = K
+  have hK := mergeTF_eq [] K
+  subst hst1
+  obtain ⟨doc, names, fix, stp, parsing, data, root, spine, depth, skip, fonts, currDet⟩ := st
+  simp only at hp hd hsp hcd hf hsk hdp
+  subst hp hd hsp hcd hf hsk hdp
+  by_cases he : hasElemF K = true
+  · by_cases hk2 : (mergeK [] K).2.isEmpty = true
+    · have hk2' := isEmpty_eq_nil hk2
+      simp [stepStop, result, appendKids, attachToRoot, parentQ, he, hk2', htr, secContent, hK, flushT]
+    · simp [stepStop, result, appendKids, attachToRoot, parentQ, he, hk2, htr, secContent, hK, flushT,
+        addToCurr, addToParent, Doc.app_app]
+  · have he' : hasElemF K = false := by simpa using he
+    have hk1 := mergeK_noElem [] K he'
+    by_cases hk2 : (mergeK [] K).2.isEmpty = true
+    · have hk2' := isEmpty_eq_nil hk2
+      simp [stepStop, result, appendKids, attachToRoot, parentQ, he', hk2', htr, secContent, hk1,
+        Doc.app_nil]
+    · simp [stepStop, result, appendKids, attachToRoot, parentQ, he', hk2, htr, secContent, hk1,
+        Doc.app_nil, addToCurr]
+
+/-! ### a whole part -/
+
+/-- what one routed section element contributes to the document -/
+def stepSec (l : Loaded) (s : Sec) (a : List (QName × Str)) (kids : Forest) : Loaded :=
+  ⟨(l.doc.putAttrs s a).app s (secContent (keepS l.doc s kids)),
+   l.names ++ regAllF (some (qOfSec s)) (keepS l.doc s kids), l.fix⟩
+
+/-- the only requirement on a part: the style:style names it registers (direct children of office:styles /
+    office:automatic-styles elements, wherever they occur) are fresh — no rename by `__register_stylename` (C11) -/
+def partKidsOK (l : Loaded) : Forest → Bool
+  | .nil => true
+  | .cons (.text _) t => partKidsOK l t
+  | .cons (.cdata _) t => partKidsOK l t
+  | .cons (.elem q a kids) t =>
+    match secOfTrigger q with
+    | some s => fresh l.names (regAllF (some (qOfSec s)) (keepS l.doc s kids)) && partKidsOK (stepSec l s a kids) t
+    | none => partKidsOK l t
+
+/-- **what a part contributes to the document** (closed form): every child of the root element that is a section
+    element appends `secContent` of its (kept) content to its section and puts its attributes on the section object;
+    every other child of the root element is skipped -/
+def loadKids (l : Loaded) : Forest → Loaded
+  | .nil => l
+  | .cons (.text _) t => loadKids l t
+  | .cons (.cdata _) t => loadKids l t
+  | .cons (.elem q a kids) t =>
+    match secOfTrigger q with
+    | some s => loadKids (stepSec l s a kids) t
+    | none => loadKids l t
+
+def afterKids (st : St) : Forest → St
+  | .nil => st
+  | .cons (.text _) t => afterKids st t
+  | .cons (.cdata _) t => afterKids st t
+  | .cons (.elem q a kids) t =>
+    match secOfTrigger q with
+    | some s => afterKids (afterSection st s a kids) t
+    | none => afterKids st t
+
+theorem afterSection_idle (st : St) (s : Sec) (a : List (QName × Str)) (kids : Forest) (h : Idle st) :
+    Idle (afterSection st s a kids) := by
+  simpa [Idle, afterSection] using h
+
+theorem run_skip_elem (st : St) (q : QName) (a : List (QName × Str)) (kids : Forest) (hp : st.parsing = false)
+    (hd : st.depth = 1) (hr : secOfTrigger q = none) : run st (evN (.elem q a kids)) = some st := by
+  have hq : isTrigger q = false := by simp [isTrigger, hr]
+  obtain ⟨st', hst'⟩ : ∃ s : St, s = { st with depth := 2 } := ⟨_, rfl⟩
+  have hstart : stepStart st q a = some st' := by subst hst'; unfold stepStart; simp [hq, hp, hd]
+  have hstop : stepStop st' q = some st := by
+    subst hst'; unfold stepStop; simp [hp]; cases st; simp_all
+  have hp' : st'.parsing = false := by subst hst'; exact hp
+  have hd' : (2 : Int) ≤ st'.depth := by subst hst'; simp
+  simp only [evN, run_cons, step, hstart, Option.bind_some]
+  rw [run_append, run_ignored kids st' hp' hd']
+  simp [run_cons, step, hstop]
+
+theorem run_partKids : (f : Forest) → (st : St) → Idle st → st.fix = [] →
+    partKidsOK ⟨st.doc, st.names, st.fix⟩ f = true → run st (evF f) = some (afterKids st f)
+  | .nil, st, _, _, _ => rfl
+  | .cons (.text s) t, st, hi, hf, hok => by
+    simp only [evF, evN, List.cons_append, List.nil_append, run_cons, step, Option.bind_some]
+    have : stepChars st s = st := by simp [stepChars, hi.1]
+    rw [this]; exact run_partKids t st hi hf (by simpa [partKidsOK] using hok)
+  | .cons (.cdata s) t, st, hi, hf, hok => by
+    simp only [evF, evN, List.cons_append, List.nil_append, run_cons, step, Option.bind_some]
+    have : stepChars st s = st := by simp [stepChars, hi.1]
+    rw [this]; exact run_partKids t st hi hf (by simpa [partKidsOK] using hok)
+  | .cons (.elem q a kids) t, st, hi, hf, hok => by
+    simp only [evF]
+    rw [run_append]
+    cases hr : secOfTrigger q with
+    | some s =>
+      simp only [partKidsOK, hr, Bool.and_eq_true] at hok
+      rw [run_section st q a kids s hi hf hr hok.1]
+      simp only [Option.bind_some, afterKids, hr]
+      exact run_partKids t _ (afterSection_idle st s a kids hi) (by simpa [afterSection] using hf)
+        (by simpa [afterSection, stepSec] using hok.2)
+    | none =>
+      simp only [partKidsOK, hr] at hok
+      rw [run_skip_elem st q a kids hi.1 hi.2.2.2.2.2 hr]
+      simp only [Option.bind_some, afterKids, hr]
+      exact run_partKids t st hi hf hok
+
+theorem afterKids_loaded : (f : Forest) → (st : St) →
+    (⟨(afterKids st f).doc, (afterKids st f).names, (afterKids st f).fix⟩ : Loaded) =
+      loadKids ⟨st.doc, st.names, st.fix⟩ f ∧ (afterKids st f).spine = st.spine ∧
+      (afterKids st f).parsing = st.parsing ∧ (afterKids st f).depth = st.depth
+  | .nil, st => ⟨rfl, rfl, rfl, rfl⟩
+  | .cons (.text _) t, st => by simpa [afterKids, loadKids] using afterKids_loaded t st
+  | .cons (.cdata _) t, st => by simpa [afterKids, loadKids] using afterKids_loaded t st
+  | .cons (.elem q a kids) t, st => by
+    cases hr : secOfTrigger q with
+    | some s =>
+      have := afterKids_loaded t (afterSection st s a kids)
+      simpa [afterKids, loadKids, hr, afterSection, stepSec] using this
+    | none => simpa [afterKids, loadKids, hr] using afterKids_loaded t st
+
+/-- **C04 (build_events)**: LoadParser on the event stream of a whole part `<root …> children </root>`.
+    For every part — any root element, any children, any nesting inside them — whose registered style names are fresh
+    (`partKidsOK`), the run succeeds and the document afterwards is `loadKids` of the children: each child of the root
+    element that is a section element appended `secContent` of its content to its section and put its attributes on
+    the section object; the root element itself, white space between the sections and every other child of the root
+    element contributed nothing.  (`sp`, the former `_parsing == "styles.xml"`, is no longer consulted.) -/
+theorem build_events (sp : Bool) (l : Loaded) (rq : QName) (ra : List (QName × Str)) (secs : Forest)
+    (hf : l.fix = []) (hok : partKidsOK l secs = true) :
+    loadPart sp l (evN (.elem rq ra secs)) = some (loadKids l secs) := by
+  unfold loadPart
+  obtain ⟨st0, hst0⟩ : ∃ st0 : St, st0 = { doc := l.doc, names := l.names, fix := l.fix, stylesPart := sp } := ⟨_, rfl⟩
+  rw [← hst0]
+  obtain ⟨st1, hst1⟩ : ∃ s : St, s = { st0 with depth := 1 } := ⟨_, rfl⟩
+  have hi : Idle st1 := by subst hst1 hst0; exact ⟨rfl, rfl, rfl, rfl, rfl, rfl⟩
+  have hstart : stepStart st0 rq ra = some st1 := by subst hst1 hst0; unfold stepStart; simp
+  have hk := run_partKids secs st1 hi (by subst hst1 hst0; exact hf) (by subst hst1 hst0; exact hok)
+  obtain ⟨hl, hsp, hpar, hdep⟩ := afterKids_loaded secs st1
+  have hstop : stepStop (afterKids st1 secs) rq = some { afterKids st1 secs with depth := 0 } := by
+    unfold stepStop
+    have h1 : (afterKids st1 secs).parsing = false := by rw [hpar]; exact hi.1
+    have h2 : (afterKids st1 secs).depth = 1 := by rw [hdep]; exact hi.2.2.2.2.2
+    simp [h1, h2]
+  simp only [evN, run_cons, step, hstart, Option.bind_some]
+  rw [run_append, hk]
+  simp only [Option.bind_some, run_cons, step, hstop, run_nil]
+  rw [settle_nil _ (by simpa using hsp.trans hi.2.2.1)]
+  subst hst1 hst0
+  simpa using congrArg some hl
+
+/-! ### canonical forests: what a parser delivers is rebuilt exactly -/
+
+def startsChar : Forest → Bool
+  | .cons (.text _) _ => true
+  | .cons (.cdata _) _ => true
+  | _ => false
+
+/-- no CDATA node, no empty text node, no two adjacent text nodes — at every level -/
+def canonB : Forest → Bool
+  | .nil => true
+  | .cons (.text s) t => !s.isEmpty && !startsChar t && canonB t
+  | .cons (.cdata _) _ => false
+  | .cons (.elem _ _ k) t => canonB k && canonB t
+
+def prependT (acc : Str) : Forest → Forest
+  | .cons (.text s) t => .cons (.text (acc ++ s)) t
+  | f => flushT acc f
+
+theorem prependT_nil (f : Forest) : prependT [] f = f := by
+  cases f with
+  | nil => rfl
+  | cons h t => cases h <;> simp [prependT, flushT]
+
+theorem mergeTF_canon : (f : Forest) → (acc : Str) → canonB f = true → mergeTF acc f = prependT acc f
+  | .nil, acc, _ => rfl
+  | .cons (.cdata _) _, _, h => by simp [canonB] at h
+  | .cons (.elem q a k) t, acc, h => by
+    simp only [canonB, Bool.and_eq_true] at h
+    rw [mergeTF, mergeTF_canon k [] h.1, mergeTF_canon t [] h.2, prependT_nil, prependT_nil]
+    rfl
+  | .cons (.text s) t, acc, h => by
+    simp only [canonB, Bool.and_eq_true, Bool.not_eq_true'] at h
+    obtain ⟨⟨hs, hst⟩, hc⟩ := h
+    have hne : (acc ++ s).isEmpty = false := by cases s <;> simp_all
+    cases t with
+    | nil => simp [mergeTF, prependT, flushT, hne]
+    | cons h' t' =>
+      cases h' with
+      | text _ => simp [startsChar] at hst
+      | cdata _ => simp [startsChar] at hst
+      | elem q a k =>
+        have := mergeTF_canon (.cons (.elem q a k) t') (acc ++ s) hc
+        simp only [mergeTF] at this ⊢
+        rw [this]; simp [prependT, flushT, hne]
+
+/-- **a canonical forest is rebuilt as it is** (mixed content in order, white-space-only text kept, nothing
+    stripped, nothing merged because nothing is adjacent) -/
+theorem mergeTF_canon_id (f : Forest) (h : canonB f = true) : mergeTF [] f = f := by
+  rw [mergeTF_canon f [] h, prependT_nil]
+
+theorem canonB_flushT (acc : Str) (f : Forest) (hf : canonB f = true) (hs : startsChar f = false) :
+    canonB (flushT acc f) = true := by
+  unfold flushT
+  by_cases h : acc.isEmpty = true
+  · simp [h, hf]
+  · simp [h, canonB, hf, hs]
+
+theorem canonB_canonTF (acc : Str) (f : Forest) : canonB (canonTF acc f) = true := by
+  fun_induction canonTF acc f with
+  | case1 acc => exact canonB_flushT acc .nil rfl rfl
+  | case2 acc s t ih => exact ih
+  | case3 acc s t ih => exact ih
+  | case4 acc q a kids t ih1 ih2 => exact canonB_flushT acc _ (by simp [canonB, ih1, ih2]) rfl
+
+theorem hasElemF_flushT (acc : Str) (f : Forest) : hasElemF (flushT acc f) = hasElemF f := by
+  unfold flushT; split <;> simp [hasElemF]
+
+theorem hasElemF_canonTF (acc : Str) (f : Forest) : hasElemF (canonTF acc f) = hasElemF f := by
+  fun_induction canonTF acc f with
+  | case1 acc => simp [hasElemF_flushT, hasElemF]
+  | case2 acc s t ih => simpa [hasElemF] using ih
+  | case3 acc s t ih => simpa [hasElemF] using ih
+  | case4 acc q a kids t ih1 ih2 => simp [hasElemF_flushT, hasElemF]
+
+/-- what `load` makes of a section that `save` wrote with content `f` -/
+def lsec (f : Forest) : Forest := secContent (canonTF [] f)
+
+/-- … is the canonical form of `f`; only a section whose whole content is character data loses it -/
+theorem lsec_eq (f : Forest) : lsec f = if hasElemF f then canonTF [] f else .nil := by
+  simp [lsec, secContent, hasElemF_canonTF, mergeTF_canon_id _ (canonB_canonTF [] f)]
+
+/-! ### the composite: load what save wrote -/
+
+theorem canonTF_cons_elem (q : QName) (a : List (QName × Str)) (k t : Forest) :
+    canonTF [] (.cons (.elem q a k) t) = .cons (.elem q (huAttrsQ a) (canonTF [] k)) (canonTF [] t) := by
+  simp [canonTF, flushT]
+
+theorem canonTF_nil : canonTF [] .nil = .nil := by simp [canonTF, flushT]
+
+theorem lsec_nil : lsec .nil = .nil := by simp [lsec_eq, hasElemF]
+
+theorem secOf_qOfSec (s : Sec) : secOfTrigger (qOfSec s) = some s := by cases s <;> decide
+
+/-- the section objects of the document carry no attributes of their own (true of every document built through the
+    API: none of the eight section elements has an attribute in the schema) -/
+def allSecs : List Sec := [.autoStyles, .body, .fontFace, .master, .metaS, .scripts, .settings, .styles]
+def noSecAttrs (d : Doc) : Bool := allSecs.all (fun s => (d.sattrs s).isEmpty)
+
+theorem noSecAttrs_at (d : Doc) (h : noSecAttrs d = true) (s : Sec) : d.sattrs s = [] := by
+  simp only [noSecAttrs, allSecs, List.all_cons, List.all_nil, Bool.and_true, Bool.and_eq_true] at h
+  cases s <;> apply isEmpty_eq_nil' <;> simp [h]
+where isEmpty_eq_nil' {α} {l : List α} (h : l.isEmpty = true) : l = [] := by cases l <;> simp_all
+
+/-- a section element written without attributes -/
+def secEl0 (s : Sec) (f : Forest) : Node := .elem (qOfSec s) [] f
+def ifKids0 (s : Sec) (f : Forest) : Forest :=
+  match f with
+  | .nil => .nil
+  | f => .cons (secEl0 s f) .nil
+
+theorem secEl_eq (d : Doc) (h : noSecAttrs d = true) (s : Sec) (f : Forest) : secEl d s f = secEl0 s f := by
+  simp [secEl, secEl0, noSecAttrs_at d h s]
+theorem ifKids_eq (d : Doc) (h : noSecAttrs d = true) (s : Sec) (f : Forest) : ifKids d s f = ifKids0 s f := by
+  cases f <;> simp [ifKids, ifKids0, secEl_eq d h]
+theorem autoEl_eq (f : Forest) : autoEl f = secEl0 .autoStyles f := rfl
+
+theorem putAttrs_nil_doc (d : Doc) (s : Sec) : d.putAttrs s [] = d := by
+  have : (fun s' => if s' = s then putAttrs (d.sattrs s) [] else d.sattrs s') = d.sattrs := by
+    funext s'; by_cases h : s' = s <;> simp [h, putAttrs]
+  simp [Doc.putAttrs, this]
+
+theorem keepS_nil (d : Doc) (s : Sec) : keepS d s .nil = .nil := by cases s <;> rfl
+
+theorem stepSec_nil (l : Loaded) (s : Sec) : stepSec l s [] .nil = l := by
+  simp [stepSec, keepS_nil, putAttrs_nil_doc, secContent, hasElemF, Doc.app_nil, regAllF]
+
+/-- the freshness condition of one section -/
+def okStep (l : Loaded) (s : Sec) (f : Forest) : Bool := fresh l.names (regAllF (some (qOfSec s)) (keepS l.doc s f))
+
+/-- a written section element, read back -/
+theorem loadKids_secEl0 (l : Loaded) (s : Sec) (f g : Forest) :
+    loadKids l (canonTF [] (.cons (secEl0 s f) g)) = loadKids (stepSec l s [] (canonTF [] f)) (canonTF [] g) := by
+  simp [secEl0, canonTF_cons_elem, loadKids, secOf_qOfSec, huAttrsQ]
+
+theorem loadKids_ifKids0 (l : Loaded) (s : Sec) (f g : Forest) :
+    loadKids l (canonTF [] (appF (ifKids0 s f) g)) = loadKids (stepSec l s [] (canonTF [] f)) (canonTF [] g) := by
+  cases f with
+  | nil => simp [ifKids0, canonTF_nil, stepSec_nil]
+  | cons h t => simpa [ifKids0] using loadKids_secEl0 l s (.cons h t) g
+
+theorem partKidsOK_secEl0 (l : Loaded) (s : Sec) (f g : Forest) :
+    partKidsOK l (canonTF [] (.cons (secEl0 s f) g)) =
+      (okStep l s (canonTF [] f) && partKidsOK (stepSec l s [] (canonTF [] f)) (canonTF [] g)) := by
+  simp [secEl0, canonTF_cons_elem, partKidsOK, secOf_qOfSec, huAttrsQ, okStep]
+
+theorem partKidsOK_ifKids0 (l : Loaded) (s : Sec) (f g : Forest) :
+    partKidsOK l (canonTF [] (appF (ifKids0 s f) g)) =
+      (okStep l s (canonTF [] f) && partKidsOK (stepSec l s [] (canonTF [] f)) (canonTF [] g)) := by
+  cases f with
+  | nil => simp [ifKids0, canonTF_nil, stepSec_nil, okStep, keepS_nil, regAllF, fresh]
+  | cons h t => simpa [ifKids0] using partKidsOK_secEl0 l s (.cons h t) g
+
+theorem trig_roots : isTrigger qDocContent = false ∧ isTrigger qDocStyles = false ∧ isTrigger qDocMeta = false ∧
+    isTrigger qDocSettings = false := by decide
+
+/-- the XML leg's hypothesis (C02's): an admissible namespace table that covers the four trees -/
+structure XmlOK (tbl : NsTable) (tv : Str) (d : Doc) (uc us : Forest) : Prop where
+  table : TableOK tbl
+  clean : NsClean tbl
+  content : TreeOK tbl (contentTree d uc)
+  styles : TreeOK tbl (stylesTree d us)
+  metaT : TreeOK tbl (metaTree tv d)
+  settings : TreeOK tbl (settingsTree d)
+
+/-! the document after each part of the saved package has been read (settings, meta, content, styles) -/
+def afterS (d : Doc) : Loaded := stepSec {} .settings [] (canonTF [] d.settings)
+def afterM (tv : Str) (d : Doc) : Loaded := stepSec (afterS d) .metaS [] (canonTF [] (normGen tv d.metaS))
+def afterC1 (tv : Str) (d : Doc) : Loaded := stepSec (afterM tv d) .scripts [] (canonTF [] d.scripts)
+def afterC2 (tv : Str) (d : Doc) : Loaded := stepSec (afterC1 tv d) .fontFace [] (canonTF [] d.fontFace)
+def afterC3 (tv : Str) (d : Doc) (uc : Forest) : Loaded := stepSec (afterC2 tv d) .autoStyles [] (canonTF [] uc)
+def afterC (tv : Str) (d : Doc) (uc : Forest) : Loaded := stepSec (afterC3 tv d uc) .body [] (canonTF [] d.body)
+def afterY1 (tv : Str) (d : Doc) (uc : Forest) : Loaded := stepSec (afterC tv d uc) .fontFace [] (canonTF [] d.fontFace)
+def afterY2 (tv : Str) (d : Doc) (uc : Forest) : Loaded := stepSec (afterY1 tv d uc) .styles [] (canonTF [] d.styles)
+def afterY3 (tv : Str) (d : Doc) (uc us : Forest) : Loaded := stepSec (afterY2 tv d uc) .autoStyles [] (canonTF [] us)
+/-- what `load(save(d))` is -/
+def loadedOf (tv : Str) (d : Doc) (uc us : Forest) : Loaded := stepSec (afterY3 tv d uc us) .master [] (canonTF [] d.master)
+
+/-- the load leg's hypothesis, decidable (`DocOK` of DESIGN.md = `XmlOK ∧ LoadOK`):
+    * the style:style names registered while loading — direct children of office:styles / office:automatic-styles
+      elements, in the order the ten sections are read — are pairwise distinct (`okStep`: no rename by
+      `__register_stylename`, C11's subject);
+    * the section objects carry no attributes of their own (`noSecAttrs`: such attributes do survive a load —
+      `run_section` — but `office:automatic-styles` is written as a fresh element).
+    Gone since repairs e0e65e8 / b40b9f8: "no section element nested inside a section" — the content of a section may
+    be ANY forest. -/
+def LoadOK (tv : Str) (d : Doc) (uc us : Forest) : Bool :=
+  noSecAttrs d &&
+  okStep {} .settings (canonTF [] d.settings) && okStep (afterS d) .metaS (canonTF [] (normGen tv d.metaS)) &&
+  okStep (afterM tv d) .scripts (canonTF [] d.scripts) && okStep (afterC1 tv d) .fontFace (canonTF [] d.fontFace) &&
+  okStep (afterC2 tv d) .autoStyles (canonTF [] uc) && okStep (afterC3 tv d uc) .body (canonTF [] d.body) &&
+  okStep (afterC tv d uc) .fontFace (canonTF [] d.fontFace) && okStep (afterY1 tv d uc) .styles (canonTF [] d.styles) &&
+  okStep (afterY2 tv d uc) .autoStyles (canonTF [] us) && okStep (afterY3 tv d uc us) .master (canonTF [] d.master)
+
+/-- `__loadxmlparts` on the saved package: settings.xml only if it was written -/
+def loadSaved (ws : Bool) (eS eM eC eY : List Event) : Option Loaded :=
+  loadParts {} ((if ws then [(sSettingsXml, eS)] else []) ++ [(sMetaXml, eM), (sContentXml, eC), (sStylesXml, eY)])
+
+/-- the statement of C04 at model level, for given trees: each written part is accepted by the reference parser,
+    and LoadParser, fed the event stream of what the parser returns under ANY chunking, yields `loadedOf` -/
+def LoadsBack (tbl : NsTable) (tv : Str) (d : Doc) (uc us : Forest) : Prop :=
+  ∃ tS tM tC tY : Node,
+    parseDoc (render tbl (settingsTree d)) = some tS ∧ parseDoc (render tbl (metaTree tv d)) = some tM ∧
+    parseDoc (render tbl (contentTree d uc)) = some tC ∧ parseDoc (render tbl (stylesTree d us)) = some tY ∧
+    ∀ eS eM eC eY : List Event, Chunked (evN tS) eS → Chunked (evN tM) eM → Chunked (evN tC) eC → Chunked (evN tY) eY →
+      loadSaved (writesSettings d) eS eM eC eY = some (loadedOf tv d uc us)
+
+/-- **C04, FULL STATEMENT**: every document that can be written is loaded back.  Still FALSE in this generality on the
+    current tree only because of C11's renames (`LoadOK`); proved below as `load_save_partial`. -/
+def FullStatement : Prop :=
+  ∀ (tbl : NsTable) (tv : Str) (d : Doc) (uc us : Forest), XmlOK tbl tv d uc us → LoadsBack tbl tv d uc us
+
+theorem loadPart_chunked (sp : Bool) (l : Loaded) (evs evs' : List Event) (h : Chunked evs evs') :
+    loadPart sp l evs' = loadPart sp l evs := by
+  unfold loadPart; rw [build_chunk_invariant evs evs' h]
+
+theorem sp_names : stylesPartOf sSettingsXml = false ∧ stylesPartOf sMetaXml = false ∧
+    stylesPartOf sContentXml = false ∧ stylesPartOf sStylesXml = true := by decide
+
+theorem okStep_fix (l : Loaded) (s : Sec) (a : List (QName × Str)) (f : Forest) : (stepSec l s a f).fix = l.fix := rfl
+
+/-- **C04 (load_save, partial)**: for every document `d` (eight sections, ANY content), every selection `uc` / `us` of
+    automatic styles written to content.xml / styles.xml and every admissible namespace table: what `save` writes is
+    accepted by the reference parser, and `load` — LoadParser over the SAX events of the parsed parts, character data
+    chunked in any way, parts in the order settings, meta, content, styles — yields `loadedOf`: each section's
+    canonical form appended to its section (`stepSec`), meta with exactly one generator (`normGen`), the written
+    automatic styles, every font name declared once (`loadedOf_doc` gives the sections explicitly).
+    Restrictions (`LoadOK`): no style-name collision (C11); no attributes on the section objects.
+    Not in the model: attribute converters (values are fixed points: C15), which automatic styles are written (C10:
+    `uc`, `us` are parameters), the zip container, pictures and sub-documents (C03/C16 and the oracle), expat
+    (trusted to deliver the events of the infoset the reference parser computes). -/
+theorem load_save_partial (tbl : NsTable) (tv : Str) (d : Doc) (uc us : Forest)
+    (hx : XmlOK tbl tv d uc us) (hl : LoadOK tv d uc us = true) : LoadsBack tbl tv d uc us := by
+  simp only [LoadOK, Bool.and_eq_true] at hl
+  obtain ⟨⟨⟨⟨⟨⟨⟨⟨⟨⟨hsa, o1⟩, o2⟩, o3⟩, o4⟩, o5⟩, o6⟩, o7⟩, o8⟩, o9⟩, o10⟩ := hl
+  simp only [afterC1, afterC2, afterC3, afterC, afterY1, afterY2, afterY3] at o4 o5 o6 o7 o8 o9 o10
+  refine ⟨_, _, _, _, parseDoc_render tbl _ _ _ hx.table hx.clean hx.settings,
+    parseDoc_render tbl _ _ _ hx.table hx.clean hx.metaT,
+    parseDoc_render tbl _ _ _ hx.table hx.clean hx.content,
+    parseDoc_render tbl _ _ _ hx.table hx.clean hx.styles, ?_⟩
+  intro eS eM eC eY cS cM cC cY
+  have pS : loadPart false {} (evN (canonT (settingsTree d))) = some (afterS d) := by
+    simp only [settingsTree, secEl_eq d hsa, canonT]
+    rw [build_events false {} _ _ _ rfl (by rw [partKidsOK_secEl0]; simp [o1, canonTF_nil, partKidsOK])]
+    rw [loadKids_secEl0]; simp [canonTF_nil, loadKids, afterS]
+  have pM : loadPart false (afterS d) (evN (canonT (metaTree tv d))) = some (afterM tv d) := by
+    simp only [metaTree, secEl_eq d hsa, canonT]
+    rw [build_events false _ _ _ _ rfl (by rw [partKidsOK_secEl0]; simp [o2, canonTF_nil, partKidsOK])]
+    rw [loadKids_secEl0]; simp [canonTF_nil, loadKids, afterM]
+  have pC : loadPart false (afterM tv d) (evN (canonT (contentTree d uc))) = some (afterC tv d uc) := by
+    simp only [contentTree, secEl_eq d hsa, ifKids_eq d hsa, autoEl_eq, canonT]
+    rw [build_events false _ _ _ _ rfl (by
+      rw [partKidsOK_ifKids0, partKidsOK_ifKids0, partKidsOK_secEl0, partKidsOK_secEl0]
+      simp [o3, o4, o5, o6, canonTF_nil, partKidsOK] )]
+    rw [loadKids_ifKids0, loadKids_ifKids0, loadKids_secEl0, loadKids_secEl0]
+    simp [canonTF_nil, loadKids, afterC, afterC1, afterC2, afterC3]
+  have pY : loadPart true (afterC tv d uc) (evN (canonT (stylesTree d us))) = some (loadedOf tv d uc us) := by
+    simp only [stylesTree, secEl_eq d hsa, ifKids_eq d hsa, autoEl_eq, canonT]
+    have hm : ifKids0 .master d.master = appF (ifKids0 .master d.master) .nil := (appF_nil_right _).symm
+    rw [hm]
+    rw [build_events true _ _ _ _ rfl (by
+      rw [partKidsOK_ifKids0, partKidsOK_secEl0, partKidsOK_secEl0, partKidsOK_ifKids0]
+      simp [o7, o8, o9, o10, canonTF_nil, partKidsOK, afterC, afterC1, afterC2, afterC3] )]
+    rw [loadKids_ifKids0, loadKids_secEl0, loadKids_secEl0, loadKids_ifKids0]
+    simp [canonTF_nil, loadKids, loadedOf, afterY1, afterY2, afterY3, afterC, afterC1, afterC2, afterC3]
+  simp only [settingsTree, metaTree, contentTree, stylesTree] at pS pM pC pY
+  unfold loadSaved
+  cases hws : writesSettings d with
+  | true =>
+    simp only [if_true, List.cons_append, List.nil_append, loadParts, sp_names.1, sp_names.2.1, sp_names.2.2.1,
+      sp_names.2.2.2]
+    rw [loadPart_chunked _ _ _ _ cS, pS]
+    simp only []
+    rw [loadPart_chunked _ _ _ _ cM, pM]
+    simp only []
+    rw [loadPart_chunked _ _ _ _ cC, pC]
+    simp only []
+    rw [loadPart_chunked _ _ _ _ cY, pY]
+  | false =>
+    have hset : d.settings = .nil := by
+      cases h : d.settings with
+      | nil => rfl
+      | cons a b => simp [writesSettings, h] at hws
+    have hS0 : afterS d = {} := by simp [afterS, hset, canonTF_nil, stepSec_nil]
+    rw [hS0] at pM
+    simp only [Bool.false_eq_true, if_false, List.nil_append, loadParts, sp_names.2.1, sp_names.2.2.1, sp_names.2.2.2]
+    rw [loadPart_chunked _ _ _ _ cM, pM]
+    simp only []
+    rw [loadPart_chunked _ _ _ _ cC, pC]
+    simp only []
+    rw [loadPart_chunked _ _ _ _ cY, pY]
+
+/-! #### the sections of the loaded document, explicitly -/
+
+/-- all nodes are style:font-face elements (what office:font-face-decls may hold) -/
+def onlyFonts : Forest → Bool
+  | .nil => true
+  | .cons (.elem q _ _) t => decide (q = qFontFaceEl) && onlyFonts t
+  | .cons _ _ => false
+
+theorem declaredNames_mergeTF (acc : Str) (f : Forest) : declaredNames (mergeTF acc f) = declaredNames f := by
+  fun_induction mergeTF acc f with
+  | case1 acc => simp [declaredNames_flushT, declaredNames]
+  | case2 acc s t ih => simpa [declaredNames] using ih
+  | case3 acc s t ih => simpa [declaredNames] using ih
+  | case4 acc q a kids t ih1 ih2 => simp [declaredNames_flushT, declaredNames, ih2]
+
+theorem declaredNames_noElem : (f : Forest) → hasElemF f = false → declaredNames f = []
+  | .nil, _ => rfl
+  | .cons (.text _) t, h => by simpa [declaredNames] using declaredNames_noElem t (by simpa [hasElemF] using h)
+  | .cons (.cdata _) t, h => by simpa [declaredNames] using declaredNames_noElem t (by simpa [hasElemF] using h)
+  | .cons (.elem _ _ _) _, h => by simp [hasElemF] at h
+
+theorem declaredNames_secContent (f : Forest) : declaredNames (secContent f) = declaredNames f := by
+  unfold secContent
+  by_cases h : hasElemF f = true
+  · simp [h, declaredNames_mergeTF]
+  · have h' : hasElemF f = false := by simpa using h
+    simp [h', declaredNames_noElem f h', declaredNames]
+
+theorem fontDrop_all_declared : (g : Forest) → (decl : List (Option Str)) → onlyFonts g = true →
+    (∀ n ∈ declaredNames g, n ∈ decl) → fontDrop decl g = .nil
+  | .nil, _, _, _ => rfl
+  | .cons (.text _) _, _, h, _ => by simp [onlyFonts] at h
+  | .cons (.cdata _) _, _, h, _ => by simp [onlyFonts] at h
+  | .cons (.elem q a k) t, decl, h, hn => by
+    simp only [onlyFonts, Bool.and_eq_true, decide_eq_true_eq] at h
+    have h1 : decl.contains (lookupA aStyleName a) = true := by
+      simpa using hn (lookupA aStyleName a) (by simp [declaredNames])
+    simp only [fontDrop, h.1, h1, and_self, if_true]
+    exact fontDrop_all_declared t decl h.2 (fun n hm => hn n (by simp [declaredNames, hm]))
+
+/-- reading the same declarations a second time (styles.xml after content.xml) adds nothing — whatever repeats the
+    list has: every name of it was declared by the first reading -/
+theorem fonts_second (ff : Forest) (h : onlyFonts (canonTF [] ff) = true) :
+    fontDrop (declaredNames (lsec ff)) (canonTF [] ff) = .nil := by
+  apply fontDrop_all_declared _ _ h
+  intro n hn
+  rw [lsec, declaredNames_secContent]
+  exact hn
+
+/-- what `load(save(d))` holds: every section in canonical form (`lsec`), the generator normalised, the automatic
+    styles that were written (content.xml's first, then styles.xml's), the font declarations once -/
+def expected (tv : Str) (d : Doc) (uc us : Forest) : Doc :=
+  { settings := lsec d.settings, metaS := lsec (normGen tv d.metaS), scripts := lsec d.scripts,
+    autoStyles := appF (lsec uc) (lsec us), body := lsec d.body, fontFace := lsec d.fontFace,
+    styles := lsec d.styles, master := lsec d.master }
+
+/-- **the sections of `load(save(d))`**, explicitly.  Residual hypothesis `onlyFonts`: office:font-face-decls holds
+    style:font-face elements only — anything else in it (white space, foreign elements) is read from BOTH parts and
+    would appear twice.  Font declarations may repeat a name: content.xml's list is read entirely, styles.xml's copy
+    of it is skipped entirely. -/
+theorem loadedOf_doc (tv : Str) (d : Doc) (uc us : Forest) (hfo : onlyFonts (canonTF [] d.fontFace) = true) :
+    (loadedOf tv d uc us).doc = expected tv d uc us := by
+  have h2 := fonts_second d.fontFace hfo
+  simp only [loadedOf, afterY3, afterY2, afterY1, afterC, afterC3, afterC2, afterC1, afterM, afterS, stepSec,
+    putAttrs_nil_doc, keepS]
+  simp only [Doc.app, Doc.set, Doc.get, declaredNames, appF_nil_left, fontDrop_nil_decl]
+  have e1 : secContent (canonTF [] d.fontFace) = lsec d.fontFace := rfl
+  simp only [e1, h2]
+  simp [expected, lsec, secContent, hasElemF]
+
+/-! ### the canonical form is a fixed point of the parser's normalisation (needed for "second generation") -/
+
+theorem hu_idem (c : Cp) : hu (hu c) = hu c := by
+  unfold hu
+  by_cases h : filtered c = true
+  · have : filtered 0xFFFD = false := by decide
+    simp [h, this]
+  · simp [h]
+
+theorem map_hu_idem (s : Str) : (s.map hu).map hu = s.map hu := by
+  simp [List.map_map, Function.comp_def, hu_idem]
+
+theorem huAttrsQ_idem (a : List (QName × Str)) : huAttrsQ (huAttrsQ a) = huAttrsQ a := by
+  induction a with
+  | nil => rfl
+  | cons x r ih => obtain ⟨q, v⟩ := x; simp [huAttrsQ, ih, hu_idem]
+
+mutual
+/-- every string of the tree filtered through `hu` -/
+def huN : Node → Node
+  | .text s => .text (s.map hu)
+  | .cdata s => .cdata (s.map hu)
+  | .elem q a k => .elem q (huAttrsQ a) (huF k)
+def huF : Forest → Forest
+  | .nil => .nil
+  | .cons h t => .cons (huN h) (huF t)
+end
+
+theorem huF_flushT (acc : Str) (f : Forest) : huF (flushT acc f) = flushT (acc.map hu) (huF f) := by
+  unfold flushT
+  by_cases h : acc.isEmpty = true
+  · have := isEmpty_eq_nil h; subst this; simp
+  · have h2 : (acc.map hu).isEmpty = false := by cases acc <;> simp_all
+    simp [h, h2, huF, huN]
+
+theorem huF_canonTF (acc : Str) (f : Forest) (ha : acc.map hu = acc) : huF (canonTF acc f) = canonTF acc f := by
+  fun_induction canonTF acc f with
+  | case1 acc => simp [huF_flushT, ha, huF]
+  | case2 acc s t ih => exact ih (by simp [ha, hu_idem])
+  | case3 acc s t ih => exact ih (by simp [ha, hu_idem])
+  | case4 acc q a kids t ih1 ih2 => simp [huF_flushT, ha, huF, huN, huAttrsQ_idem, ih1 rfl, ih2 rfl]
+
+theorem canonTF_eq_merge (acc : Str) (f : Forest) : canonTF acc f = mergeTF acc (huF f) := by
+  fun_induction canonTF acc f with
+  | case1 acc => simp [huF, mergeTF]
+  | case2 acc s t ih => simpa [huF, huN, mergeTF] using ih
+  | case3 acc s t ih => simpa [huF, huN, mergeTF] using ih
+  | case4 acc q a kids t ih1 ih2 => simp [huF, huN, mergeTF, ih1, ih2]
+
+theorem canonTF_idem (f : Forest) : canonTF [] (canonTF [] f) = canonTF [] f := by
+  rw [canonTF_eq_merge [] (canonTF [] f), huF_canonTF [] f rfl, mergeTF_canon_id _ (canonB_canonTF [] f)]
+
+theorem canonT_idem (q : QName) (a : List (QName × Str)) (k : Forest) :
+    canonT (canonT (.elem q a k)) = canonT (.elem q a k) := by
+  simp [canonT, huAttrsQ_idem, canonTF_idem]
+
+/-! ### second generation -/
+
+/-- a section is empty or has at least one element child (true of every section a schema-directed document has:
+    none of the eight section elements may hold character data) -/
+def secOK : Forest → Bool
+  | .nil => true
+  | f => hasElemF f
+
+def SecsOK (d : Doc) (uc us : Forest) : Bool :=
+  secOK d.settings && secOK d.scripts && secOK d.fontFace && secOK uc && secOK d.body && secOK d.styles && secOK us &&
+  secOK d.master
+
+theorem lsec_secOK (f : Forest) (h : secOK f = true) : lsec f = canonTF [] f := by
+  cases f with
+  | nil => simp [lsec_nil, canonTF_nil]
+  | cons a t => simp only [secOK] at h; simp [lsec_eq, h]
+
+theorem ifKids_canon (s : Sec) (f g : Forest) (h : secOK f = true) :
+    canonTF [] (appF (ifKids0 s f) g) = appF (ifKids0 s (lsec f)) (canonTF [] g) := by
+  rw [lsec_secOK f h]
+  cases f with
+  | nil => simp [ifKids0, canonTF_nil]
+  | cons a t =>
+    simp only [secOK] at h
+    have he : hasElemF (canonTF [] (.cons a t)) = true := by rw [hasElemF_canonTF]; exact h
+    cases hc : canonTF [] (.cons a t) with
+    | nil => rw [hc] at he; simp [hasElemF] at he
+    | cons a' t' => simp [ifKids0, secEl0, canonTF_cons_elem, hc, huAttrsQ]
+
+theorem secEl_canon (s : Sec) (f g : Forest) (h : secOK f = true) :
+    canonTF [] (.cons (secEl0 s f) g) = .cons (secEl0 s (lsec f)) (canonTF [] g) := by
+  rw [lsec_secOK f h]; simp [secEl0, canonTF_cons_elem, huAttrsQ]
+
+theorem ver_stable : huAttrsQ verAttrs = verAttrs := by decide
+
+def noGenB : Forest → Bool
+  | .nil => true
+  | .cons h t => !isGen h && noGenB t
+
+theorem noGenB_filterNG : (m : Forest) → noGenB (filterNG m) = true
+  | .nil => rfl
+  | .cons h t => by
+    unfold filterNG
+    by_cases hg : isGen h = true
+    · simp [hg, noGenB_filterNG t]
+    · simp [hg, noGenB, noGenB_filterNG t]
+
+theorem filterNG_flushT (acc : Str) (f : Forest) : filterNG (flushT acc f) = flushT acc (filterNG f) := by
+  unfold flushT; split <;> simp [filterNG, isGen]
+
+theorem canon_genNode (tv : Str) (htv : tv.map hu = tv) (acc : Str) :
+    canonTF acc (.cons (genNode tv) .nil) = flushT acc (.cons (genNode tv) .nil) := by
+  unfold genNode
+  by_cases h : tv.isEmpty = true
+  · simp [h, canonTF, huAttrsQ, flushT]
+  · have h2 : tv ≠ [] := by intro e; simp [e] at h
+    simp [h, canonTF, huAttrsQ, flushT, htv, h2]
+
+theorem gen_fix (tv : Str) (htv : tv.map hu = tv) : (X : Forest) → (acc : Str) → noGenB X = true →
+    appF (filterNG (canonTF acc (appF X (.cons (genNode tv) .nil)))) (.cons (genNode tv) .nil) =
+      canonTF acc (appF X (.cons (genNode tv) .nil))
+  | .nil, acc, _ => by
+    have hg : isGen (genNode tv) = true := by simp [genNode, isGen]
+    simp [canon_genNode tv htv, filterNG_flushT, filterNG, hg, appF_flushT]
+  | .cons (.text s) t, acc, h => by
+    simp only [noGenB, isGen, Bool.not_false, Bool.true_and] at h
+    simpa [canonTF] using gen_fix tv htv t _ h
+  | .cons (.cdata s) t, acc, h => by
+    simp only [noGenB, isGen, Bool.not_false, Bool.true_and] at h
+    simpa [canonTF] using gen_fix tv htv t _ h
+  | .cons (.elem q a k) t, acc, h => by
+    simp only [noGenB, Bool.and_eq_true, Bool.not_eq_true'] at h
+    have hq : isGen (.elem q (huAttrsQ a) (canonTF [] k)) = false := by simpa [isGen] using h.1
+    simp only [appF_cons, canonTF, filterNG_flushT, filterNG, hq, Bool.false_eq_true, if_false, appF_flushT]
+    rw [gen_fix tv htv t [] h.2]
+
+theorem hasElemF_appF_elem (X : Forest) (q : QName) (a : List (QName × Str)) (k : Forest) :
+    hasElemF (appF X (.cons (.elem q a k) .nil)) = true := by
+  fun_induction hasElemF X <;> simp_all [hasElemF]
+
+theorem normGen_fix (tv : Str) (htv : tv.map hu = tv) (m : Forest) :
+    normGen tv (lsec (normGen tv m)) = canonTF [] (normGen tv m) := by
+  have he : hasElemF (normGen tv m) = true := by unfold normGen genNode; exact hasElemF_appF_elem _ _ _ _
+  rw [lsec_eq, he]
+  simp only [if_true, normGen]
+  exact gen_fix tv htv (filterNG m) [] (noGenB_filterNG m)
+
+/-- **C04 (second generation, partial)**: saving the loaded document writes, part by part, exactly the infoset of
+    the first package (`canonT` of the tree that was written = what the reference parser returns for it), with the
+    generator still named exactly once; settings.xml is written the second time iff it was the first time.
+    Hypotheses: `SecsOK` (no section consists of character data only), `noSecAttrs`, the library version string has no filtered
+    character, and — C10's subject — the second save selects for each part the automatic styles that were loaded
+    from it (`lsec uc`, `lsec us`). -/
+theorem second_generation_partial (tv : Str) (d : Doc) (uc us : Forest) (hs : SecsOK d uc us = true)
+    (hsa : noSecAttrs d = true) (htv : tv.map hu = tv) :
+    contentTree (expected tv d uc us) (lsec uc) = canonT (contentTree d uc) ∧
+    stylesTree (expected tv d uc us) (lsec us) = canonT (stylesTree d us) ∧
+    metaTree tv (expected tv d uc us) = canonT (metaTree tv d) ∧
+    settingsTree (expected tv d uc us) = canonT (settingsTree d) ∧
+    writesSettings (expected tv d uc us) = writesSettings d := by
+  simp only [SecsOK, Bool.and_eq_true] at hs
+  obtain ⟨⟨⟨⟨⟨⟨⟨o1, o2⟩, o3⟩, o4⟩, o5⟩, o6⟩, o7⟩, o8⟩ := hs
+  have he : noSecAttrs (expected tv d uc us) = true := rfl
+  refine ⟨?_, ?_, ?_, ?_, ?_⟩
+  · simp only [contentTree, secEl_eq _ he, ifKids_eq _ he, secEl_eq d hsa, ifKids_eq d hsa, autoEl_eq]
+    simp only [canonT, expected, ver_stable]
+    rw [ifKids_canon _ _ _ o2, ifKids_canon _ _ _ o3, secEl_canon _ _ _ o4, secEl_canon _ _ _ o5, canonTF_nil]
+  · simp only [stylesTree, secEl_eq _ he, ifKids_eq _ he, secEl_eq d hsa, ifKids_eq d hsa, autoEl_eq]
+    simp only [canonT, expected, ver_stable]
+    rw [ifKids_canon _ _ _ o3, secEl_canon _ _ _ o6, secEl_canon _ _ _ o7]
+    have := ifKids_canon .master d.master .nil o8
+    simp only [appF_nil_right, canonTF_nil] at this
+    rw [this]
+  · simp only [metaTree, secEl_eq _ he, secEl_eq d hsa]
+    simp only [canonT, expected, ver_stable]
+    rw [normGen_fix tv htv]
+    simp [secEl0, canonTF_cons_elem, huAttrsQ, canonTF_nil]
+  · simp only [settingsTree, secEl_eq _ he, secEl_eq d hsa]
+    simp only [canonT, expected, ver_stable]
+    rw [secEl_canon _ _ _ o1, canonTF_nil]
+  · simp only [expected, writesSettings]
+    rw [lsec_secOK _ o1]
+    cases hd : d.settings with
+    | nil => simp [canonTF_nil]
+    | cons a t =>
+      rw [hd] at o1; simp only [secOK] at o1
+      have he : hasElemF (canonTF [] (.cons a t)) = true := by rw [hasElemF_canonTF]; exact o1
+      cases hc : canonTF [] (.cons a t) with
+      | nil => rw [hc] at he; simp [hasElemF] at he
+      | cons a' t' => rfl
+
+/-- … hence both generations have the same infoset (the reference parser returns the same tree for both) -/
+theorem second_generation_infoset (tbl : NsTable) (tv : Str) (d : Doc) (uc us : Forest)
+    (hx : XmlOK tbl tv d uc us) (hs : SecsOK d uc us = true) (hsa : noSecAttrs d = true) (htv : tv.map hu = tv) :
+    parseDoc (render tbl (contentTree (expected tv d uc us) (lsec uc))) = parseDoc (render tbl (contentTree d uc)) ∧
+    parseDoc (render tbl (stylesTree (expected tv d uc us) (lsec us))) = parseDoc (render tbl (stylesTree d us)) ∧
+    parseDoc (render tbl (metaTree tv (expected tv d uc us))) = parseDoc (render tbl (metaTree tv d)) ∧
+    parseDoc (render tbl (settingsTree (expected tv d uc us))) = parseDoc (render tbl (settingsTree d)) := by
+  obtain ⟨e1, e2, e3, e4, _⟩ := second_generation_partial tv d uc us hs hsa htv
+  have key : ∀ (q : QName) (a : List (QName × Str)) (k : Forest), TreeOK tbl (.elem q a k) →
+      parseDoc (render tbl (canonT (.elem q a k))) = parseDoc (render tbl (.elem q a k)) := by
+    intro q a k h
+    rw [parseDoc_render tbl q a k hx.table hx.clean h]
+    have h2 := treeOK_canonT q a k h
+    simp only [canonT] at h2 ⊢
+    rw [parseDoc_render tbl q _ _ hx.table hx.clean h2]
+    have := canonT_idem q a k
+    simp only [canonT] at this ⊢
+    rw [this]
+  rw [e1, e2, e3, e4]
+  exact ⟨key _ _ _ hx.content, key _ _ _ hx.styles, key _ _ _ hx.metaT, key _ _ _ hx.settings⟩
+
+/-! ### examples of the repaired behaviour (former known findings) -/
+
+def topNames : Forest → List QName
+  | .nil => []
+  | .cons (.elem q _ _) t => q :: topNames t
+  | .cons _ t => topNames t
+
+/-- `u:a`, `u:b`, `u:c` in the namespace "u" -/
+def exQ (c : Nat) : QName := ⟨[117], [c]⟩
+def exE (c : Nat) : Node := .elem (exQ c) [] .nil
+
+/-- content.xml whose body is `<u:a/> <office:settings><u:c/></office:settings> <u:b/>` (the schema allows an inline
+    office:document, with its own office:settings / office:body …, inside draw:object) -/
+def nestedPart : Node :=
+  .elem qDocContent [] (.cons (.elem qBody []
+    (.cons (exE 97) (.cons (.elem qSettings [] (.cons (exE 99) .nil)) (.cons (exE 98) .nil)))) .nil)
+
+/-- (was known finding KF-C04-8 / KF-C05-16, repaired in e0e65e8) an element named like a section that is not a child
+    of the root element is ordinary content: it stays in the body, with what follows it, and the outer document's
+    settings are not touched.  The general statement is `run_section` / `build_events`, which no longer have a
+    hypothesis about the names of nested elements. -/
+theorem nested_section_kept :
+    (loadPart false {} (evN nestedPart)).map (fun l => (topNames l.doc.body, topNames l.doc.settings)) =
+      some ([exQ 97, qSettings, exQ 98], []) := by decide
+
+/-- `Object 1/styles.xml` -/
+def sObj1Styles : Str := [79, 98, 106, 101, 99, 116, 32, 49, 47] ++ sStylesXml
+
+/-- a part that declares the font name "F" twice (different content) and "G" once -/
+def fontsPart : Node :=
+  .elem qDocStyles [] (.cons (.elem qFontFace []
+      (.cons (.elem qFontFaceEl [(aStyleName, [70]), (aTextStyleName, [49])] .nil)
+        (.cons (.elem qFontFaceEl [(aStyleName, [70]), (aTextStyleName, [50])] .nil)
+          (.cons (.elem qFontFaceEl [(aStyleName, [71])] .nil) .nil))))
+    (.cons (.elem qStyles [] (.cons (exE 115) .nil)) .nil))
+
+/-- (were known findings KF-C04-4, KF-C05-3, KF-C05-4, KF-C04-9; repaired in 934baed and b40b9f8) office:font-face-decls
+    is read from every part — styles.xml or content.xml, of the top document or of a sub-document; repeats INSIDE a
+    part are all kept (F, F, G comes back as three declarations), and reading the same list again from the other part
+    adds nothing. -/
+theorem fonts_loaded_once :
+    (loadPart (stylesPartOf sObj1Styles) {} (evN fontsPart)).map (fun l => declaredNames l.doc.fontFace) =
+      some [some [70], some [70], some [71]] ∧
+    (loadPart (stylesPartOf sContentXml) {} (evN fontsPart)).map (fun l => declaredNames l.doc.fontFace) =
+      some [some [70], some [70], some [71]] ∧
+    ((loadPart false {} (evN fontsPart)).bind (fun l => loadPart true l (evN fontsPart))).map
+      (fun l => declaredNames l.doc.fontFace) = some [some [70], some [70], some [71]] := by decide
+
+/-! ### the hypotheses are satisfiable -/
+
+/-- namespace table: office ↦ "o", meta ↦ "m", "u" ↦ "p" -/
+def exTbl : NsTable := [(OFFICENS, [111]), (METANS, [109]), ([117], [112])]
+
+/-- body `<u:a>x y<u:b/> </u:a>` (mixed content, white-space-only text), one common style element, the rest empty -/
+def exDoc : Doc :=
+  { body := .cons (.elem (exQ 97) [] (.cons (.text [120, 32, 121]) (.cons (exE 98) (.cons (.text [32]) .nil)))) .nil,
+    styles := .cons (exE 115) .nil }
+
+theorem exTbl_ok : TableOK exTbl := by
+  refine ⟨by decide, ?_⟩
+  intro e he
+  simp only [exTbl, List.mem_cons, List.not_mem_nil, or_false] at he
+  rcases he with rfl | rfl | rfl <;> refine ⟨by decide, by decide, by decide, ?_⟩ <;> unfold StrOK <;> decide
+
+/-- a decision procedure for the XML layer's `TreeOK` (so that `XmlOK` can be checked by evaluation) -/
+def strOKb (s : Str) : Bool := s.all (fun c => decide (c < 0x110000))
+def qnameOKb (q : QName) : Bool := isNCName q.loc && (!q.ns.isEmpty || decide (q.loc ≠ XMLNS_NAME))
+def coveredB (tbl : NsTable) (q : QName) : Bool := q.ns.isEmpty || (lookupNs tbl q.ns).isSome
+def attrsOKb (tbl : NsTable) (as : List (QName × Str)) : Bool :=
+  nodupQ as && as.all (fun a => qnameOKb a.1 && coveredB tbl a.1 && strOKb a.2)
+
+mutual
+def treeOKb (tbl : NsTable) : Node → Bool
+  | .text s => strOKb s
+  | .cdata s => strOKb s
+  | .elem q a k => qnameOKb q && coveredB tbl q && attrsOKb tbl a && forestOKb tbl k
+def forestOKb (tbl : NsTable) : Forest → Bool
+  | .nil => true
+  | .cons h t => treeOKb tbl h && forestOKb tbl t
+end
+
+theorem strOKb_sound {s : Str} (h : strOKb s = true) : StrOK s := by
+  intro c hc; simp only [strOKb, List.all_eq_true, decide_eq_true_eq] at h; exact h c hc
+
+theorem qnameOKb_sound {q : QName} (h : qnameOKb q = true) : QNameOK q := by
+  simp only [qnameOKb, Bool.and_eq_true, Bool.or_eq_true, Bool.not_eq_true', decide_eq_true_eq] at h
+  refine ⟨h.1, fun hn => ?_⟩
+  rcases h.2 with h2 | h2
+  · simp [hn] at h2
+  · exact h2
+
+theorem coveredB_sound {tbl : NsTable} {q : QName} (h : coveredB tbl q = true) : Covered tbl q := by
+  simp only [coveredB, Bool.or_eq_true] at h
+  rcases h with h | h
+  · left; exact isEmpty_eq_nil h
+  · right; cases hl : lookupNs tbl q.ns with
+    | none => simp [hl] at h
+    | some p => exact ⟨p, rfl⟩
+
+theorem attrsOKb_sound {tbl : NsTable} {as : List (QName × Str)} (h : attrsOKb tbl as = true) : AttrsQOK tbl as := by
+  simp only [attrsOKb, Bool.and_eq_true, List.all_eq_true] at h
+  exact ⟨h.1, fun a ha => ⟨qnameOKb_sound (h.2 a ha).1.1, coveredB_sound (h.2 a ha).1.2, strOKb_sound (h.2 a ha).2⟩⟩
+
+mutual
+theorem treeOKb_sound (tbl : NsTable) : (n : Node) → treeOKb tbl n = true → TreeOK tbl n
+  | .text s, h => strOKb_sound (by simpa [treeOKb] using h)
+  | .cdata s, h => strOKb_sound (by simpa [treeOKb] using h)
+  | .elem q a k, h => by
+    simp only [treeOKb, Bool.and_eq_true] at h
+    exact ⟨qnameOKb_sound h.1.1.1, coveredB_sound h.1.1.2, attrsOKb_sound h.1.2, forestOKb_sound tbl k h.2⟩
+theorem forestOKb_sound (tbl : NsTable) : (f : Forest) → forestOKb tbl f = true → ForestOK tbl f
+  | .nil, _ => trivial
+  | .cons h t, hh => by
+    simp only [forestOKb, Bool.and_eq_true] at hh
+    exact ⟨treeOKb_sound tbl h hh.1, forestOKb_sound tbl t hh.2⟩
+end
+
+/-- non-vacuity: all hypotheses of `load_save_partial`, `loadedOf_doc`, `second_generation_partial` hold for a document with mixed
+    content and white-space-only text in the body, a common style, the library's generator string "T" -/
+example : XmlOK exTbl [84] exDoc .nil .nil ∧ LoadOK [84] exDoc .nil .nil = true ∧ SecsOK exDoc .nil .nil = true ∧
+    noSecAttrs exDoc = true ∧ onlyFonts (canonTF [] exDoc.fontFace) = true ∧ ([84] : Str).map hu = [84] := by
+  refine ⟨⟨exTbl_ok, ?_, ?_, ?_, ?_, ?_⟩, by decide, by decide, by decide, by decide, by decide⟩
+  · intro e he
+    simp only [exTbl, List.mem_cons, List.not_mem_nil, or_false] at he
+    rcases he with rfl | rfl | rfl <;> decide
+  · exact treeOKb_sound _ _ (by decide)
+  · exact treeOKb_sound _ _ (by decide)
+  · exact treeOKb_sound _ _ (by decide)
+  · exact treeOKb_sound _ _ (by decide)
 
 end OdfModel.Props.C04
